@@ -5,7 +5,7 @@ from mingus.core import keys, intervals
 
 ID = "C04"
 LEAN_MODULES = ["Mingus.Props.C04", "Mingus.Tie.C04"]
-RULE = ("all 30 keys x every query; signature numbers -20..20 and random 64-bit; every string of length <=3 over the key "
+RULE = ("every list returned is scribbled over by the caller after copying (answers must not depend on it); all 30 keys x every query; signature numbers -20..20 and random 64-bit; every string of length <=3 over the key "
         "alphabet and seeded random strings as candidate keys; 30 keys x 7 letters x accidental strings of length <=2 "
         "(quick) / <=4 (thorough) x steps 1..6 x the six diatonic functions and interval()")
 EXHAUSTIVE = {"quick": True, "thorough": True}
@@ -43,13 +43,26 @@ def key_obj(k):
     o = keys.Key(k)
     return [o.name, o.mode, o.signature]
 
+def hostile(f):
+    """A caller that scribbles over every list it is handed after taking a copy: the next answer must not depend on it
+    (an implementation that hands out its memo table would; a correct one is unaffected)."""
+    def g(*a):
+        r = f(*a)
+        if isinstance(r, list):
+            out = list(r)
+            r.reverse()
+            r.append("scribble")
+            return out
+        return r
+    return g
+
 DIATONIC = {"second": 1, "third": 2, "fourth": 3, "fifth": 4, "sixth": 5, "seventh": 6}
 IMPL = {
     "keys.is_valid_key": keys.is_valid_key,
     "keys.get_key": keys.get_key,
     "keys.get_key_signature": keys.get_key_signature,
-    "keys.get_key_signature_accidentals": keys.get_key_signature_accidentals,
-    "keys.get_notes": lambda k: list(keys.get_notes(k)),
+    "keys.get_key_signature_accidentals": hostile(keys.get_key_signature_accidentals),
+    "keys.get_notes": hostile(keys.get_notes),
     "keys.relative_major": keys.relative_major,
     "keys.relative_minor": keys.relative_minor,
     "keys.Key": key_obj,
